@@ -42,6 +42,12 @@ CHECKS = {
  "C05": dict(engine="hypothesis-given", technique="generated beam/plasma states with analytic mock beam rates; oracle: statement's population-weighted mean / charged sum in plain Python, argument logging, min<=q<=max",
              text="BeamCXLine and BeamEmissionLine emission() are called directly with mock rates that depend on every argument and key; window totals must equal (1/4pi) n_b n_r q with the population-weighted mean q (bounded by the individual coefficients) and (1/4pi) n_b sum Z_i n_i q_i; the arguments each coefficient receives (interaction energy, temperature, total ion density, Z_eff, |B|, equivalent density) are compared with an independent evaluation; exact zeros for zero beam/receiver density.",
              ref="DESIGN.md section 3, C05"),
+ "C10": dict(engine="hypothesis-given", technique="rays built by construction (edges, corners, tangential, inside, axis-parallel); oracle: exact event-based chord lengths per cell with own matrices, merged-map and periodicity metamorphic relations, sample-exact replica of the documented midpoint scheme",
+             text="RayTransferBox / RayTransferCylinder with generated grids, masks, voxel maps, steps and rigid transforms are traced with rays aimed at the interesting places; per-source entries must lie within max(2, k) integration steps of the exact chord (k = separate sub-chords), totals within (#active runs) steps, untouched / masked / -1 cells exactly 0, merged maps equal sums of their cells, rotated rays obey the period, and any exception is a violation.",
+             ref="DESIGN.md section 3, C10"),
+ "C14": dict(engine="hypothesis-given", technique="recording wrapped functions with known derivatives; oracles: bit-identical results across evaluation orders and fresh caches, node reproduction, multilinear exactness, a-priori h^2 curvature bound, outside-area policy, bounds-invariance differential",
+             text="Caching1D/2D/3D: the same points evaluated in two generated orders and alone on fresh caches must return bit-identical values; nodes (the recorded call arguments) reproduce f, multilinear functions are exact, twice-differentiable ones within 1.0 * sum h_a^2 max|d2f/da2| (2.4x the derived constant), outside points raise or pass through exactly, function_boundaries modes agree.",
+             ref="DESIGN.md section 3, C14"),
  "C11": dict(engine="hypothesis-given", technique="generated matrices (rank-deficient, zero rows/columns); oracles: independent numpy SART reference, KKT certificate for NNLS, normal equations for LSQ/SVD",
              text="SART / constrained SART are compared with a 30-line numpy transcription of the documented update rule (iterate and convergence list, 1e-10), fixed points and non-negativity; regularised NNLS is certified by the KKT conditions on the stacked system, LSQ and SVD by the normal equations (and minimum norm), reported residual norms are recomputed.",
              ref="DESIGN.md section 3, C11"),
@@ -82,7 +88,7 @@ def main():
             "level_note": c.get("note", BASE_NOTE),
             "technique": c["technique"],
         })
-    na = [{"property_id": p, "reason": "check not built yet in this round (planned, see DESIGN.md section 3); the technique applies"}
+    na = [{"property_id": p, "reason": "check not built yet (planned, see DESIGN.md section 3); the technique applies"}
           for p in ALL if p not in CHECKS]
     m = {
         "version": 1,
